@@ -149,6 +149,28 @@ def grow_unit(op):
             w = e.fields["_weights"]
             if isinstance(w, NdArr) and w.tail == (nc + k,):
                 V.ensure("post/existing-weights-unchanged", _rows_equal(I, w.data[:nc], before["_weights"]))
+            # the ensemble owns its arrays: no buffer is shared with the structures it was grown from (editing a conformer must not
+            # edit the source molecule, and vice versa)
+            def buffers(x):
+                out_ = set()
+                if isinstance(x, list):
+                    out_.add(id(x))
+                    for y in x:
+                        out_ |= buffers(y)
+                return out_
+            mine = set()
+            for f in ("_coords", "_atomic_charges", "_weights"):
+                a_ = e.fields.get(f)
+                if isinstance(a_, NdArr):
+                    mine |= buffers(a_.data) | {id(a_)}
+            theirs = set()
+            srcs = args[0].items if isinstance(args[0], ListV) else [args[0]]
+            for s_ in srcs:
+                for f in ("_coords", "_atomic_charges", "_weights"):
+                    a_ = s_.fields.get(f) if isinstance(s_, Obj) else None
+                    if isinstance(a_, NdArr):
+                        theirs |= buffers(a_.data) | {id(a_)}
+            V.ensure("post/no-array-shared-with-the-appended-structures", z3.BoolVal(not (mine & theirs)))
     return body
 
 
